@@ -80,3 +80,17 @@ claim("C12", "proof",
       "is complete only w.r.t. the opcode table (regenerated) and the entry points listed.",
       "Coq proof (induction over call trees / histories) + exhaustive per-primitive fault enumeration on the implementation",
       "DESIGN.md section 6, C12")
+
+HOOK_COMMITS.append("89599d9")
+
+claim("C17", "proof",
+      "Coq theorems about the control flow of Solver::findRoot over an abstract evaluator and abstract arithmetic "
+      "(so binary32 is one instance): residual = expression at the final assignment, masked variables never returned, "
+      "absent variables unchanged, at most gas-1 gradient evaluations, termination for every value / gradient function; "
+      "tie: the trace of evaluator calls recorded by the LIBFIVE_VERIF hook is replayed through the extracted model, which "
+      "must issue the same setVar arguments, consume the whole trace and return the same result; oracle: the four clauses "
+      "on the implementation under a 10 s watchdog (NaN gradients, infinite residuals, zero gradients, gas 0/1/2).",
+      "Trusted: Coq kernel, extraction, replay driver (adopts the recorded trial point when within 1e-4 relative: last-bit "
+      "effects of fma contraction are not control flow), trace hook, harness.",
+      "Coq proof (loop invariants over fuel-indexed model) + trace-replay correspondence",
+      "DESIGN.md section 6, C17")
